@@ -1,8 +1,11 @@
 #!/bin/sh
-# tools/run_all.sh [quick|thorough] : run every claimed check, print one line per property
+# tools/run_all.sh [quick|thorough] [ID ...] : run every claimed check (or the listed ones), print one line per property
 TIER="${1:-quick}"
+[ $# -gt 0 ] && shift
 cd "$(dirname "$0")/.."
-for p in $(/venv/bin/python -c "import json;print(' '.join(c['property_id'] for c in json.load(open('MANIFEST.json'))['checks']))"); do
+PROPS="$*"
+[ -z "$PROPS" ] && PROPS=$(/venv/bin/python -c "import json;print(' '.join(c['property_id'] for c in json.load(open('MANIFEST.json'))['checks']))")
+for p in $PROPS; do
   ./check "$p" --tier "$TIER" > "/tmp/fv-runall-$p.log" 2>&1
   rc=$?
   echo "$p exit=$rc $(grep "^$p $TIER:" /tmp/fv-runall-$p.log | cut -c1-170)"
